@@ -58,456 +58,462 @@ def run(ck):
     R6 = ck.rule('R12.6', "mode table and stop: c/cancel, w/wait, s/start map to their control "
                  "coroutines, anything else raises", 'M0', 2)
 
-    # ------------------------------------------------------------------ R12.1
-    oc = m.get('_output_coro')
-    ck.need(R1, oc is not None, "OutputAsync._output_coro not found")
-    dparam = oc.node.args.args[1].arg
-    tries = [x for x in own_nodes(oc.node) if isinstance(x, ast.Try) and
-             any(isinstance(a, ast.Await) and call_name(a.value) == '_coro' for s in x.body for a in walk_shallow(s))]
-    awaits = [a for a in own_nodes(oc.node) if isinstance(a, ast.Await) and call_name(a.value) == '_coro']
-    ok = len(tries) == 1 and len(awaits) == 1
-    ck.ob(R1, f"{oc.fid} :: single await of the user coroutine", ok,
-          "self._coro(...) is awaited at exactly one place, inside a try" if ok else
-          f"{len(awaits)} await(s) of the user coroutine in {len(tries)} try block(s)", oc, oc.node)
-    ck.need(R1, ok, "_output_coro: try statement not recognised")
-    t = tries[0]
-    arms = {}
-    for h in t.handlers:
-        ht = handler_types(h)
-        arms['cancel' if ht == ['CancelledError'] else ('error' if ht == ['Exception'] else str(ht))] = h.body
-    arms['success'] = t.orelse
-    okarms = set(arms) == {'cancel', 'error', 'success'} and not t.finalbody and \
-        [handler_types(h) for h in t.handlers].index(['CancelledError']) >= 0
-    ck.ob(R1, f"{oc.fid} :: three arms", okarms,
-          "except CancelledError / except Exception / else" if okarms else
-          f"outcome arms are {sorted(arms)}", oc, t)
-    want = {'cancel': ('self._on_cancel', set()), 'error': ('self._on_error', {'error'}),
-            'success': ('self._on_success', {'value'})}
-    for arm, body in arms.items():
-        if arm not in want:
-            continue
-        tup, extra = want[arm]
-        loops = [x for s in body for x in walk_shallow(s) if isinstance(x, ast.For)]
-        sends = [x for s in body for x in walk_shallow(s) if isinstance(x, ast.Call) and call_name(x) == 'send']
-        ok = len(loops) == 1 and len(sends) == 1 and norm(loops[0].iter) == tup
-        why = f"{len(loops)} loop(s), {len(sends)} send(s)"
-        if ok:
-            c = sends[0]
-            kws = {k.arg: k.value for k in c.keywords}
-            ok = [norm(a) for a in c.args] == ['self'] and set(kws) == {'trigger', 'put'} | extra and \
-                is_const(kws['trigger'], arm) and norm(kws['put']) == dparam
-            if ok and arm == 'error':
-                hname = [h.name for h in t.handlers if handler_types(h) == ['Exception']][0]
-                ok = norm(kws['error']) == hname
-            if ok and arm == 'success':
-                tgt = [norm(s.targets[0]) for s in t.body if isinstance(s, ast.Assign) and
-                       any(a is awaits[0] for a in walk_shallow(s.value))]
-                ok = bool(tgt) and norm(kws['value']) == tgt[0]
-            why = f"send({', '.join(norm(a) for a in c.args)}, " + \
-                ', '.join(f"{k}={norm(v)}" for k, v in kws.items()) + ")"
-        leaves = [x for s in body for x in walk_shallow(s) if isinstance(x, (ast.Return, ast.Raise, ast.Continue,
-                                                                             ast.Break))]
-        ck.ob(R1, f"{oc.fid} :: {arm} arm", ok and not leaves,
-              f"loop over {tup} with trigger={arm!r}, put=<original data>" if ok and not leaves else
-              f"the {arm} arm does not report exactly once to {tup} with the original data, or "
-              f"leaves early ({why}; early exits: {[norm1(x) for x in leaves]})", oc,
-              body[0] if body else t)
-    # the data parameter is not re-bound
-    rebound = [x for x in own_nodes(oc.node) if isinstance(x, (ast.Assign, ast.AugAssign)) and
-               any(isinstance(tg, ast.Name) and tg.id == dparam for tg in
-                   (x.targets if isinstance(x, ast.Assign) else [x.target]))]
-    ck.ob(R1, f"{oc.fid} :: data not re-bound", not rebound,
-          "the reported `put` item is the data the run was started with" if not rebound else
-          "the data parameter is re-bound before it is reported", oc, rebound[0] if rebound else oc.node)
-    for attr in ('_on_cancel', '_on_error', '_on_success'):
-        own(ck, R1, attr, {m['__init__'].fid: 'constructor',
-                           'blocklib.sblocks2:OutputFunc.__init__': 'OutputFunc has its own tuples'})
-
-    # ------------------------------------------------------------------ R12.2
-    for cname_ in ('_ctrl_cancel', '_ctrl_wait', '_ctrl_start'):
-        fi = m.get(cname_)
-        ck.need(R2, fi is not None, f"OutputAsync.{cname_} not found")
-        g = ck.cfg(fi.fid, 'M0')
-        qal = {'self._queue'} | {norm(n.ast.targets[0]) for n in g.nodes if n.kind == 'stmt' and
-                                 isinstance(n.ast, ast.Assign) and norm(n.ast.value) == 'self._queue'}
-        gets = nodes_where(g, lambda n: isinstance(n.ast, ast.Assign) and any(
-            call_name(c) in ('get', 'get_nowait') and recv(c) in qal for c in node_calls(n)))
-        ck.need(R2, gets, f"{fi.fid}: no dequeue site")
-        for gn in gets:
-            var = norm(gn.ast.targets[0])
-
-            def consumes(n, var=var):
-                # run it
-                for c in node_calls(n):
-                    if call_name(c) == '_output_coro_wrapper' and [norm(a) for a in c.args] == [var]:
-                        return True
-                    if call_name(c) == 'send' and any(k.arg == 'put' and norm(k.value) == var
-                                                      for k in c.keywords):
-                        return True
-                # report it as cancelled: the loop over the event tuple is the consumer
-                if n.kind == 'for' and norm(n.ast.iter) == 'self._on_cancel' and any(
-                        isinstance(x, ast.Call) and call_name(x) == 'send' and
-                        any(k.arg == 'put' and norm(k.value) == var for k in x.keywords)
-                        for s in n.ast.body for x in walk_shallow(s)):
-                    return True
-                # transfer to another variable that is itself tracked
-                if n.kind == 'stmt' and isinstance(n.ast, ast.Assign) and norm(n.ast.value) == var \
-                        and isinstance(n.ast.targets[0], ast.Name):
-                    return True
-                return False
-            consumers = nodes_where(g, consumes, kinds=('stmt', 'for', 'test'))
-            sentinel = [n for n in g.nodes if n.kind == 'branch' and n.polarity and
-                        norm(n.test.ast) in (f'{var} is None', f'None is {var}')]
-            redefs = [n for n in g.nodes if n is not gn and var in node_defs(n)]
-            wit = path_pruned(g, gn, redefs + [g.exit, gn], avoid=consumers + sentinel,
-                              init_facts=stable_guard_facts(g, gn))
-            ck.ob(R2, f"{fi.fid} :: {norm1(gn.ast)}", wit is None and bool(consumers),
-                  f"`{var}` is run, reported as cancelled, transferred, or is the stop sentinel "
-                  f"before it is dropped" if wit is None and consumers else
-                  f"an accepted item (`{var}`) can be dropped silently: neither run nor reported "
-                  f"through on_cancel", fi, gn.ast, witness=path_witness(g, wit))
-        # transfers: the target of a transfer must be tracked as well (data = new_data)
-        for n in g.nodes:
-            if n.kind == 'stmt' and isinstance(n.ast, ast.Assign) and isinstance(n.ast.targets[0], ast.Name) \
-                    and isinstance(n.ast.value, ast.Name) and n.ast.value.id != n.ast.targets[0].id and \
-                    any(norm(gn.ast.targets[0]) == n.ast.value.id for gn in gets):
-                var = n.ast.targets[0].id
-                cons = nodes_where(g, lambda x, var=var: any(
-                    (call_name(c) == '_output_coro_wrapper' and [norm(a) for a in c.args] == [var]) or
-                    (call_name(c) == 'send' and any(k.arg == 'put' and norm(k.value) == var for k in c.keywords))
-                    for c in node_calls(x)) or (x.kind == 'for' and norm(x.ast.iter) == 'self._on_cancel'),
-                    kinds=('stmt', 'for'))
-                redefs = [x for x in g.nodes if x is not n and var in node_defs(x)]
-                wit = g.path_avoiding(n, redefs + [g.exit], avoid=cons, start_successors_only=True)
-                # the old value of the target must have been consumed before the transfer
-                ck.ob(R2, f"{fi.fid} :: transfer {norm1(n.ast)}", wit is None,
-                      f"the transferred item `{var}` is run or reported before it is replaced"
-                      if wit is None else f"after `{norm1(n.ast)}` the item can be dropped", fi, n.ast,
-                      witness=path_witness(g, wit))
-    # ---- at most one outcome per accepted item: an item that was reported through on_cancel is
-    # never run afterwards, and none is run twice (a consumer is followed by a re-definition of
-    # the variable before the next consumer of the same variable)
-    n_pairs = 0
-    for cname_ in ('_ctrl_cancel', '_ctrl_wait', '_ctrl_start'):
-        fi = m.get(cname_)
-        g = ck.cfg(fi.fid, 'M0')
-        vars_ = sorted({norm(a) for n in g.nodes for c in node_calls(n)
-                        if call_name(c) == '_output_coro_wrapper' for a in c.args})
-        for var in vars_:
-            def run_of(n, var=var):
-                return any(call_name(c) == '_output_coro_wrapper' and [norm(a) for a in c.args] == [var]
-                           for c in node_calls(n))
-
-            def report_of(n, var=var):
-                if n.kind == 'for' and norm(n.ast.iter) == 'self._on_cancel':
-                    return any(isinstance(x, ast.Call) and call_name(x) == 'send' and
-                               any(k.arg == 'put' and norm(k.value) == var for k in x.keywords)
-                               for s_ in n.ast.body for x in walk_shallow(s_))
-                return False
-            runs = nodes_where(g, run_of, kinds=('stmt', 'test'))
-            reports = nodes_where(g, report_of, kinds=('for',))
-            redefs = [n for n in g.nodes if var in node_defs(n)]
-            for c1 in runs + reports:
-                for c2 in runs + reports:
-                    if c1 in reports and c2 in reports:
-                        continue        # the header of the reporting loop is re-entered per event
-                    n_pairs += 1
-                    if c1 in reports:
-                        # leave the reporting loop first (its own iterations are one report)
-                        starts = [g.nodes[v] for v, lab in g.succ[c1.id] if lab != 'iter']
-                    else:
-                        starts = [g.nodes[v] for v, lab in g.succ[c1.id] if lab != 'exc']
-                    wit = None
-                    for st_ in starts:
-                        if st_ in redefs:
-                            continue
-                        if st_ is c2:
-                            wit = [c1, c2]
-                            break
-                        w = path_pruned(g, st_, [c2], avoid=redefs, start_successors_only=False,
-                                        init_facts=stable_guard_facts(g, c1))
-                        if w is not None:
-                            wit = [c1] + list(w)
-                            break
-                    k1 = 'run' if c1 in runs else 'cancel report'
-                    k2 = 'run' if c2 in runs else 'cancel report'
-                    ck.ob(R2, f"{fi.fid} :: `{var}`: {k1} then {k2}", wit is None,
-                          f"after the {k1} of `{var}` the variable is re-bound before the next {k2}: "
-                          f"one outcome per accepted event" if wit is None else
-                          f"the same item `{var}` can get a {k1} and then a {k2}: two outcomes for "
-                          f"one accepted event", fi, c2.ast, witness=path_witness(g, wit))
-    ck.need(R2, n_pairs >= 4, f"only {n_pairs} consumer pairs analysed (expected >= 4)")
-
-    ep = m.get('_event_put')
-    ok = ep is not None and ep.node.args.kwarg is not None and any(
-        isinstance(x, ast.Call) and call_name(x) == 'put_nowait' and recv(x) == 'self._queue' and
-        [norm(a) for a in x.args] == [ep.node.args.kwarg.arg] for x in own_nodes(ep.node)) and \
-        not ep.node.args.kwonlyargs and len(ep.node.args.args) == 1
-    ck.ob(R2, f"{OA}._event_put", ok,
-          "the complete event data is enqueued with put_nowait (never blocks, never drops)" if ok
-          else "_event_put does not enqueue the complete event data", ep, ep.node if ep else None)
-
-    # ------------------------------------------------------------------ R12.3
-    ow = m.get('_output_coro_wrapper')
-    ck.need(R3, ow is not None, "OutputAsync._output_coro_wrapper not found")
-    g = ck.cfg(ow.fid, 'M2')
-    so = nodes_calling(g, 'set_output')
-
-    def delta(n):
-        a = node_calls(n, 'set_output')[0].args[0]
-        if isinstance(a, ast.BinOp) and norm(a.left) in ('self.output', 'self._output') and \
-                isinstance(a.right, ast.Constant) and a.right.value == 1:
-            return +1 if isinstance(a.op, ast.Add) else (-1 if isinstance(a.op, ast.Sub) else 0)
-        return 0
-    inc = [n for n in so if delta(n) == +1]
-    dec = [n for n in so if delta(n) == -1]
-    ck.ob(R3, f"{ow.fid} :: +1 / -1", len(inc) == 1 and bool(dec) and len(inc) + len(dec) == len(so),
-          f"one increment, {len(dec)} decrement node(s) (finally copies)", ow, ow.node)
-    if inc:
-        # after the increment has completed, every exit passes a decrement
-        after = [g.nodes[v] for v, lab in g.succ[inc[0].id] if lab != 'exc']
-        wit = None
-        for a in after:
-            if a in dec:
+    with ck.section('R12.1'):
+        # ------------------------------------------------------------------ R12.1
+        oc = m.get('_output_coro')
+        ck.need(R1, oc is not None, "OutputAsync._output_coro not found")
+        dparam = oc.node.args.args[1].arg
+        tries = [x for x in own_nodes(oc.node) if isinstance(x, ast.Try) and
+                 any(isinstance(a, ast.Await) and call_name(a.value) == '_coro' for s in x.body for a in walk_shallow(s))]
+        awaits = [a for a in own_nodes(oc.node) if isinstance(a, ast.Await) and call_name(a.value) == '_coro']
+        ok = len(tries) == 1 and len(awaits) == 1
+        ck.ob(R1, f"{oc.fid} :: single await of the user coroutine", ok,
+              "self._coro(...) is awaited at exactly one place, inside a try" if ok else
+              f"{len(awaits)} await(s) of the user coroutine in {len(tries)} try block(s)", oc, oc.node)
+        ck.need(R1, ok, "_output_coro: try statement not recognised")
+        t = tries[0]
+        arms = {}
+        for h in t.handlers:
+            ht = handler_types(h)
+            arms['cancel' if ht == ['CancelledError'] else ('error' if ht == ['Exception'] else str(ht))] = h.body
+        arms['success'] = t.orelse
+        okarms = set(arms) == {'cancel', 'error', 'success'} and not t.finalbody and \
+            [handler_types(h) for h in t.handlers].index(['CancelledError']) >= 0
+        ck.ob(R1, f"{oc.fid} :: three arms", okarms,
+              "except CancelledError / except Exception / else" if okarms else
+              f"outcome arms are {sorted(arms)}", oc, t)
+        want = {'cancel': ('self._on_cancel', set()), 'error': ('self._on_error', {'error'}),
+                'success': ('self._on_success', {'value'})}
+        for arm, body in arms.items():
+            if arm not in want:
                 continue
-            wit = wit or g.path_avoiding(a, [g.exit, g.raise_exit], avoid=dec)
-        ck.ob(R3, f"{ow.fid} :: decrement on all exits", wit is None and bool(dec),
-              "after a completed increment every exit (normal, exception, cancellation) passes the "
-              "decrement" if wit is None and dec else
-              "a run can end without decrementing the active-run counter (the output would never "
-              "return to 0)", ow, inc[0].ast, witness=path_witness(g, wit))
-        # no decrement without the increment
-        p = g.path_avoiding(g.entry, dec, avoid=inc)
-        ck.ob(R3, f"{ow.fid} :: no decrement without increment", p is None,
-              "the decrement is reached only after the increment" if p is None else
-              "the counter can be decremented although it was not incremented", ow, ow.node,
-              witness=path_witness(g, p))
-    sites = sorted({f.fid for f in oa.methods.values() for x in own_nodes(f.node)
-                    if isinstance(x, ast.Call) and call_name(x) == 'set_output'})
-    ir = m.get('init_regular')
-    ok = sites == sorted([ow.fid, ir.fid]) and any(
-        isinstance(x, ast.Call) and call_name(x) == 'set_output' and is_const(x.args[0], 0)
-        for x in own_nodes(ir.node))
-    ck.ob(R3, f"{OA} :: set_output sites", ok, f"set_output is called from {sites}; init sets 0"
-          if ok else f"unexpected set_output sites {sites} (or init does not set 0)", ir, ir.node)
+            tup, extra = want[arm]
+            loops = [x for s in body for x in walk_shallow(s) if isinstance(x, ast.For)]
+            sends = [x for s in body for x in walk_shallow(s) if isinstance(x, ast.Call) and call_name(x) == 'send']
+            ok = len(loops) == 1 and len(sends) == 1 and norm(loops[0].iter) == tup
+            why = f"{len(loops)} loop(s), {len(sends)} send(s)"
+            if ok:
+                c = sends[0]
+                kws = {k.arg: k.value for k in c.keywords}
+                ok = [norm(a) for a in c.args] == ['self'] and set(kws) == {'trigger', 'put'} | extra and \
+                    is_const(kws['trigger'], arm) and norm(kws['put']) == dparam
+                if ok and arm == 'error':
+                    hname = [h.name for h in t.handlers if handler_types(h) == ['Exception']][0]
+                    ok = norm(kws['error']) == hname
+                if ok and arm == 'success':
+                    tgt = [norm(s.targets[0]) for s in t.body if isinstance(s, ast.Assign) and
+                           any(a is awaits[0] for a in walk_shallow(s.value))]
+                    ok = bool(tgt) and norm(kws['value']) == tgt[0]
+                why = f"send({', '.join(norm(a) for a in c.args)}, " + \
+                    ', '.join(f"{k}={norm(v)}" for k, v in kws.items()) + ")"
+            leaves = [x for s in body for x in walk_shallow(s) if isinstance(x, (ast.Return, ast.Raise, ast.Continue,
+                                                                                 ast.Break))]
+            ck.ob(R1, f"{oc.fid} :: {arm} arm", ok and not leaves,
+                  f"loop over {tup} with trigger={arm!r}, put=<original data>" if ok and not leaves else
+                  f"the {arm} arm does not report exactly once to {tup} with the original data, or "
+                  f"leaves early ({why}; early exits: {[norm1(x) for x in leaves]})", oc,
+                  body[0] if body else t)
+        # the data parameter is not re-bound
+        rebound = [x for x in own_nodes(oc.node) if isinstance(x, (ast.Assign, ast.AugAssign)) and
+                   any(isinstance(tg, ast.Name) and tg.id == dparam for tg in
+                       (x.targets if isinstance(x, ast.Assign) else [x.target]))]
+        ck.ob(R1, f"{oc.fid} :: data not re-bound", not rebound,
+              "the reported `put` item is the data the run was started with" if not rebound else
+              "the data parameter is re-bound before it is reported", oc, rebound[0] if rebound else oc.node)
+        for attr in ('_on_cancel', '_on_error', '_on_success'):
+            own(ck, R1, attr, {m['__init__'].fid: 'constructor',
+                               'blocklib.sblocks2:OutputFunc.__init__': 'OutputFunc has its own tuples'})
 
-    # ------------------------------------------------------------------ R12.4
-    g = ck.cfg(oc.fid, 'M1')
-    guard = nodes_where(g, lambda n: any(isinstance(a, ast.Await) and isinstance(a.value, ast.Call) and
-                                         call_name(a.value) == 'shield_cancel' for a in walk_shallow(n.ast)))
-    ok = len(guard) == 1
-    if ok:
-        inner = [a for a in walk_shallow(guard[0].ast) if isinstance(a, ast.Call) and
-                 call_name(a) == 'shield_cancel'][0].args[0]
-        ok = isinstance(inner, ast.Call) and norm(inner.func) == 'asyncio.sleep' and \
-            [norm(a) for a in inner.args] == ['self._guard_time']
-    ck.ob(R4, f"{oc.fid} :: guard sleep shielded", ok,
-          "await utils.shield_cancel(asyncio.sleep(self._guard_time))" if ok else
-          "the guard sleep is not protected by shield_cancel: a cancellation shortens the guard "
-          "time", oc, guard[0].ast if guard else oc.node)
-    if guard:
-        aw = nodes_where(g, lambda n: any(a is awaits[0] for a in walk_shallow(n.ast)))
-        skipb = [n for n in g.nodes if n.kind == 'branch' and not n.polarity and
-                 'self._guard_time' in norm(n.test.ast)]
-        wit = g.path_avoiding(aw[0], [g.exit], avoid=guard + skipb, start_successors_only=True) if aw else None
-        ck.ob(R4, f"{oc.fid} :: guard follows every arm", wit is None,
-              "after success, error and cancellation alike the guard time is waited (if configured)"
-              if wit is None else "an outcome arm leaves _output_coro without the guard sleep", oc,
-              guard[0].ast, witness=path_witness(g, wit))
-        hs = [h for h in own_nodes(oc.node) if isinstance(h, ast.ExceptHandler) and
-              any(a is x for s in [st for st in own_nodes(oc.node) if isinstance(st, ast.Try) and h in st.handlers]
-                  for b in s.body for x in walk_shallow(b)
-                  for a in [y for y in walk_shallow(guard[0].ast)] if isinstance(a, ast.Await))]
-        okh = all(handler_types(h) == ['CancelledError'] for h in hs) and bool(hs)
-        ck.ob(R4, f"{oc.fid} :: only the deferred cancellation absorbed", okh,
-              "around the guard sleep only CancelledError is caught" if okh else
-              "the handler around the guard sleep catches more than CancelledError", oc,
-              hs[0] if hs else oc.node)
-    sc = prog.func('utils.shield_cancel:shield_cancel')
-    gs = ck.cfg(sc.fid, 'M1')
-    brk = [n for n in gs.nodes if n.kind == 'stmt' and isinstance(n.ast, ast.Break)]
-    aw = nodes_where(gs, lambda n: any(isinstance(a, ast.Await) and 'shield(' in norm(a.value)
-                                       for a in walk_shallow(n.ast)))
-    store = nodes_where(gs, lambda n: isinstance(n.ast, ast.Assign) and norm(n.ast.targets[0]) == 'cancel_exc'
-                        and not is_const(n.ast.value, None))
-    rer = nodes_where(gs, lambda n: isinstance(n.ast, ast.Raise) and n.ast.exc is not None and
-                      norm(n.ast.exc) == 'cancel_exc', kinds=('stmt',))
-    ok = len(aw) == 1 and bool(brk) and bool(store) and bool(rer) and \
-        all(gs.path_avoiding(gs.entry, [b], avoid=aw) is None for b in brk) and \
-        all(gs.has_guard(s_, 'task.done()', False) for s_ in store) and \
-        all(gs.has_guard(r, 'cancel_exc is not None', True) for r in rer) and \
-        all(any(gs.dominates(b, r) for b in brk) for r in rer)
-    ck.ob(R4, sc.fid, ok, "the loop is left only when the shielded await returned; a cancellation "
-          "received meanwhile is stored and re-raised afterwards" if ok else
-          "shield_cancel can end before the inner task is done, or loses the deferred cancellation",
-          sc, sc.node)
-    ini = m['__init__']
-    gi = ck.cfg(ini.fid, 'M0')
-    rs = nodes_where(gi, lambda n: isinstance(n.ast, ast.Raise) and
-                     gi.has_guard(n, 'self._guard_time > self.stop_timeout', True), kinds=('stmt',))
-    ck.ob(R4, f"{ini.fid} :: guard_time <= stop_timeout", bool(rs),
-          "guard_time > stop_timeout is refused at construction" if rs else
-          "a guard_time longer than stop_timeout is accepted (stop could not complete in time)",
-          ini, ini.node)
+    with ck.section('R12.2'):
+        # ------------------------------------------------------------------ R12.2
+        for cname_ in ('_ctrl_cancel', '_ctrl_wait', '_ctrl_start'):
+            fi = m.get(cname_)
+            ck.need(R2, fi is not None, f"OutputAsync.{cname_} not found")
+            g = ck.cfg(fi.fid, 'M0')
+            qal = {'self._queue'} | {norm(n.ast.targets[0]) for n in g.nodes if n.kind == 'stmt' and
+                                     isinstance(n.ast, ast.Assign) and norm(n.ast.value) == 'self._queue'}
+            gets = nodes_where(g, lambda n: isinstance(n.ast, ast.Assign) and any(
+                call_name(c) in ('get', 'get_nowait') and recv(c) in qal for c in node_calls(n)))
+            ck.need(R2, gets, f"{fi.fid}: no dequeue site")
+            for gn in gets:
+                var = norm(gn.ast.targets[0])
 
-    # ------------------------------------------------------------------ R12.5
-    cw = m['_ctrl_wait']
-    gw = ck.cfg(cw.fid, 'M0')
-    inline = [a for a in own_nodes(cw.node) if isinstance(a, ast.Await) and call_name(a.value) == '_output_coro_wrapper']
-    tasks = [c for c in own_nodes(cw.node) if isinstance(c, ast.Call) and call_name(c) in ('create_task', 'ensure_future')]
-    ck.ob(R5, f"{cw.fid} :: one at a time", len(inline) == 1 and not tasks,
-          "each run is awaited inline: the next item is dequeued only after the previous run "
-          "(incl. guard time) finished" if len(inline) == 1 and not tasks else
-          "wait mode starts runs concurrently", cw, cw.node)
-    st = m['start']
-    qw = [x for x in own_nodes(st.node) if isinstance(x, ast.Assign) and norm(x.targets[0]) == 'self._queue']
-    ok = len(qw) == 1 and norm(qw[0].value) == 'asyncio.Queue()'
-    ck.ob(R5, f"{st.fid} :: FIFO queue", ok, "self._queue = asyncio.Queue() (arrival order)" if ok
-          else f"the queue is `{norm(qw[0].value) if qw else None}`, not a FIFO asyncio.Queue()",
-          st, qw[0] if qw else st.node)
-    own(ck, R5, '_queue', {st.fid: 'created at start',
-                           'blocklib.sblocks1:Repeat.start': "Repeat's own queue",
-                           'blocklib.cron:Cron.start': "Cron's own queue"})
-    cs = m['_ctrl_start']
-    gst = ck.cfg(cs.fid, 'M0')
-    get = nodes_where(gst, lambda n: any(call_name(c) == 'get' for c in node_calls(n)))
-    mk = nodes_where(gst, lambda n: any(call_name(c) in ('create_task', 'ensure_future') for c in node_calls(n)))
-    ok = len(get) == 1 and len(mk) == 1
-    if ok:
-        between = [n for n in gst.nodes if n.id in gst.reachable_from(get[0], avoid=[mk[0]])
-                   and mk[0].id in gst.reachable_from(n) and n is not get[0] and n.ast is not None
-                   and n.kind in ('stmt', 'test') and
-                   any(isinstance(a, ast.Await) for a in walk_shallow(n.ast))]
-        ok = not between
-    ck.ob(R5, f"{cs.fid} :: every event starts at once", ok,
-          "a task is created for each item with no await between dequeue and creation" if ok else
-          "start mode waits between dequeue and task creation (runs would not start at once)",
-          cs, mk[0].ast if mk else cs.node)
-    cc = m['_ctrl_cancel']
-    gc = ck.cfg(cc.fid, 'M0')
-    cancels = nodes_calling(gc, 'cancel')
-    ok = len(cancels) == 1 and gc.has_guard(cancels[0], 'stop', False)
-    deq = nodes_where(gc, lambda n: any(isinstance(a, ast.Await) and call_name(a.value) == 'get'
-                                        for a in walk_shallow(n.ast)))
-    # the cancel is reached only after a dequeue in the same iteration
-    heads = [n for n in gc.nodes if n.kind == 'test' and isinstance(n.stmt, ast.While)
-             and gc.dominates(n, cancels[0])] if cancels else []
-    head = min(heads, key=lambda n: n.id) if heads else None
-    ok = ok and head is not None and path_pruned(gc, head, cancels, avoid=deq) is None
-    ck.ob(R5, f"{cc.fid} :: cancel only for newer data", ok,
-          "task.cancel() is reached only after a successful dequeue of the same iteration and "
-          "never when stopping (the last run completes)" if ok else
-          "a run can be cancelled without a newer event (e.g. at stop)", cc,
-          cancels[0].ast if cancels else cc.node)
-    mk = nodes_where(gc, lambda n: any(call_name(c) in ('create_task', 'ensure_future') for c in node_calls(n)))
-    aw = nodes_where(gc, lambda n: any(isinstance(a, ast.Await) and norm(a.value) == 'task'
-                                       for a in walk_shallow(n.ast)))
-    okone = len(mk) == 1 and len(aw) >= 1
-    if okone:
-        live = [n for n in gc.nodes if n.kind == 'branch' and not n.polarity and
-                'task.done()' in norm(n.test.ast)]
-        p = gc.path_avoiding(mk[0], [mk[0]], avoid=aw + live, start_successors_only=True)
-        okone = p is None
-    ck.ob(R5, f"{cc.fid} :: at most one active", okone,
-          "the previous run is awaited (unless done) before the next task is created" if okone
-          else "a new run can be created while the previous one is still active", cc,
-          mk[0].ast if mk else cc.node)
-    # the newest item runs: the created task gets the last binding of data
-    if mk:
-        c = [c for c in node_calls(mk[0]) if call_name(c) == '_output_coro_wrapper']
-        ok = bool(c) and [norm(a) for a in c[0].args] == ['data']
-        tr = nodes_where(gc, lambda n: isinstance(n.ast, ast.Assign) and norm(n.ast.targets[0]) == 'data'
-                         and norm(n.ast.value) == 'new_data')
-        ok = ok and bool(tr)
-        ck.ob(R5, f"{cc.fid} :: most recent event runs", ok,
-              "older queued items are reported as cancelled, the newest becomes `data` and is run"
-              if ok else "the run is not started with the most recent event", cc, mk[0].ast)
-    gth = [a for a in own_nodes(cs.node) if isinstance(a, ast.Await) and call_name(a.value) == 'gather']
-    ck.ob(R5, f"{cs.fid} :: gathered", len(gth) == 1, "all started tasks are gathered after the "
-          "sentinel" if len(gth) == 1 else "start mode does not wait for its tasks", cs, cs.node)
-    # every path from a task creation to the exit passes the gather; the only accepted way round
-    # it is the false outcome of a truth test of the very container the tasks were added to
-    mks = nodes_where(gst, lambda n: any(call_name(c) in ('create_task', 'ensure_future') for c in node_calls(n)))
-    gnodes = nodes_where(gst, lambda n: any(isinstance(a, ast.Await) and call_name(a.value) == 'gather'
+                def consumes(n, var=var):
+                    # run it
+                    for c in node_calls(n):
+                        if call_name(c) == '_output_coro_wrapper' and [norm(a) for a in c.args] == [var]:
+                            return True
+                        if call_name(c) == 'send' and any(k.arg == 'put' and norm(k.value) == var
+                                                          for k in c.keywords):
+                            return True
+                    # report it as cancelled: the loop over the event tuple is the consumer
+                    if n.kind == 'for' and norm(n.ast.iter) == 'self._on_cancel' and any(
+                            isinstance(x, ast.Call) and call_name(x) == 'send' and
+                            any(k.arg == 'put' and norm(k.value) == var for k in x.keywords)
+                            for s in n.ast.body for x in walk_shallow(s)):
+                        return True
+                    # transfer to another variable that is itself tracked
+                    if n.kind == 'stmt' and isinstance(n.ast, ast.Assign) and norm(n.ast.value) == var \
+                            and isinstance(n.ast.targets[0], ast.Name):
+                        return True
+                    return False
+                consumers = nodes_where(g, consumes, kinds=('stmt', 'for', 'test'))
+                sentinel = [n for n in g.nodes if n.kind == 'branch' and n.polarity and
+                            norm(n.test.ast) in (f'{var} is None', f'None is {var}')]
+                redefs = [n for n in g.nodes if n is not gn and var in node_defs(n)]
+                wit = path_pruned(g, gn, redefs + [g.exit, gn], avoid=consumers + sentinel,
+                                  init_facts=stable_guard_facts(g, gn))
+                ck.ob(R2, f"{fi.fid} :: {norm1(gn.ast)}", wit is None and bool(consumers),
+                      f"`{var}` is run, reported as cancelled, transferred, or is the stop sentinel "
+                      f"before it is dropped" if wit is None and consumers else
+                      f"an accepted item (`{var}`) can be dropped silently: neither run nor reported "
+                      f"through on_cancel", fi, gn.ast, witness=path_witness(g, wit))
+            # transfers: the target of a transfer must be tracked as well (data = new_data)
+            for n in g.nodes:
+                if n.kind == 'stmt' and isinstance(n.ast, ast.Assign) and isinstance(n.ast.targets[0], ast.Name) \
+                        and isinstance(n.ast.value, ast.Name) and n.ast.value.id != n.ast.targets[0].id and \
+                        any(norm(gn.ast.targets[0]) == n.ast.value.id for gn in gets):
+                    var = n.ast.targets[0].id
+                    cons = nodes_where(g, lambda x, var=var: any(
+                        (call_name(c) == '_output_coro_wrapper' and [norm(a) for a in c.args] == [var]) or
+                        (call_name(c) == 'send' and any(k.arg == 'put' and norm(k.value) == var for k in c.keywords))
+                        for c in node_calls(x)) or (x.kind == 'for' and norm(x.ast.iter) == 'self._on_cancel'),
+                        kinds=('stmt', 'for'))
+                    redefs = [x for x in g.nodes if x is not n and var in node_defs(x)]
+                    wit = g.path_avoiding(n, redefs + [g.exit], avoid=cons, start_successors_only=True)
+                    # the old value of the target must have been consumed before the transfer
+                    ck.ob(R2, f"{fi.fid} :: transfer {norm1(n.ast)}", wit is None,
+                          f"the transferred item `{var}` is run or reported before it is replaced"
+                          if wit is None else f"after `{norm1(n.ast)}` the item can be dropped", fi, n.ast,
+                          witness=path_witness(g, wit))
+        # ---- at most one outcome per accepted item: an item that was reported through on_cancel is
+        # never run afterwards, and none is run twice (a consumer is followed by a re-definition of
+        # the variable before the next consumer of the same variable)
+        n_pairs = 0
+        for cname_ in ('_ctrl_cancel', '_ctrl_wait', '_ctrl_start'):
+            fi = m.get(cname_)
+            g = ck.cfg(fi.fid, 'M0')
+            vars_ = sorted({norm(a) for n in g.nodes for c in node_calls(n)
+                            if call_name(c) == '_output_coro_wrapper' for a in c.args})
+            for var in vars_:
+                def run_of(n, var=var):
+                    return any(call_name(c) == '_output_coro_wrapper' and [norm(a) for a in c.args] == [var]
+                               for c in node_calls(n))
+
+                def report_of(n, var=var):
+                    if n.kind == 'for' and norm(n.ast.iter) == 'self._on_cancel':
+                        return any(isinstance(x, ast.Call) and call_name(x) == 'send' and
+                                   any(k.arg == 'put' and norm(k.value) == var for k in x.keywords)
+                                   for s_ in n.ast.body for x in walk_shallow(s_))
+                    return False
+                runs = nodes_where(g, run_of, kinds=('stmt', 'test'))
+                reports = nodes_where(g, report_of, kinds=('for',))
+                redefs = [n for n in g.nodes if var in node_defs(n)]
+                for c1 in runs + reports:
+                    for c2 in runs + reports:
+                        if c1 in reports and c2 in reports:
+                            continue        # the header of the reporting loop is re-entered per event
+                        n_pairs += 1
+                        if c1 in reports:
+                            # leave the reporting loop first (its own iterations are one report)
+                            starts = [g.nodes[v] for v, lab in g.succ[c1.id] if lab != 'iter']
+                        else:
+                            starts = [g.nodes[v] for v, lab in g.succ[c1.id] if lab != 'exc']
+                        wit = None
+                        for st_ in starts:
+                            if st_ in redefs:
+                                continue
+                            if st_ is c2:
+                                wit = [c1, c2]
+                                break
+                            w = path_pruned(g, st_, [c2], avoid=redefs, start_successors_only=False,
+                                            init_facts=stable_guard_facts(g, c1))
+                            if w is not None:
+                                wit = [c1] + list(w)
+                                break
+                        k1 = 'run' if c1 in runs else 'cancel report'
+                        k2 = 'run' if c2 in runs else 'cancel report'
+                        ck.ob(R2, f"{fi.fid} :: `{var}`: {k1} then {k2}", wit is None,
+                              f"after the {k1} of `{var}` the variable is re-bound before the next {k2}: "
+                              f"one outcome per accepted event" if wit is None else
+                              f"the same item `{var}` can get a {k1} and then a {k2}: two outcomes for "
+                              f"one accepted event", fi, c2.ast, witness=path_witness(g, wit))
+        ck.need(R2, n_pairs >= 4, f"only {n_pairs} consumer pairs analysed (expected >= 4)")
+
+        ep = m.get('_event_put')
+        ok = ep is not None and ep.node.args.kwarg is not None and any(
+            isinstance(x, ast.Call) and call_name(x) == 'put_nowait' and recv(x) == 'self._queue' and
+            [norm(a) for a in x.args] == [ep.node.args.kwarg.arg] for x in own_nodes(ep.node)) and \
+            not ep.node.args.kwonlyargs and len(ep.node.args.args) == 1
+        ck.ob(R2, f"{OA}._event_put", ok,
+              "the complete event data is enqueued with put_nowait (never blocks, never drops)" if ok
+              else "_event_put does not enqueue the complete event data", ep, ep.node if ep else None)
+
+    with ck.section('R12.3'):
+        # ------------------------------------------------------------------ R12.3
+        ow = m.get('_output_coro_wrapper')
+        ck.need(R3, ow is not None, "OutputAsync._output_coro_wrapper not found")
+        g = ck.cfg(ow.fid, 'M2')
+        so = nodes_calling(g, 'set_output')
+
+        def delta(n):
+            a = node_calls(n, 'set_output')[0].args[0]
+            if isinstance(a, ast.BinOp) and norm(a.left) in ('self.output', 'self._output') and \
+                    isinstance(a.right, ast.Constant) and a.right.value == 1:
+                return +1 if isinstance(a.op, ast.Add) else (-1 if isinstance(a.op, ast.Sub) else 0)
+            return 0
+        inc = [n for n in so if delta(n) == +1]
+        dec = [n for n in so if delta(n) == -1]
+        ck.ob(R3, f"{ow.fid} :: +1 / -1", len(inc) == 1 and bool(dec) and len(inc) + len(dec) == len(so),
+              f"one increment, {len(dec)} decrement node(s) (finally copies)", ow, ow.node)
+        if inc:
+            # after the increment has completed, every exit passes a decrement
+            after = [g.nodes[v] for v, lab in g.succ[inc[0].id] if lab != 'exc']
+            wit = None
+            for a in after:
+                if a in dec:
+                    continue
+                wit = wit or g.path_avoiding(a, [g.exit, g.raise_exit], avoid=dec)
+            ck.ob(R3, f"{ow.fid} :: decrement on all exits", wit is None and bool(dec),
+                  "after a completed increment every exit (normal, exception, cancellation) passes the "
+                  "decrement" if wit is None and dec else
+                  "a run can end without decrementing the active-run counter (the output would never "
+                  "return to 0)", ow, inc[0].ast, witness=path_witness(g, wit))
+            # no decrement without the increment
+            p = g.path_avoiding(g.entry, dec, avoid=inc)
+            ck.ob(R3, f"{ow.fid} :: no decrement without increment", p is None,
+                  "the decrement is reached only after the increment" if p is None else
+                  "the counter can be decremented although it was not incremented", ow, ow.node,
+                  witness=path_witness(g, p))
+        sites = sorted({f.fid for f in oa.methods.values() for x in own_nodes(f.node)
+                        if isinstance(x, ast.Call) and call_name(x) == 'set_output'})
+        ir = m.get('init_regular')
+        ok = sites == sorted([ow.fid, ir.fid]) and any(
+            isinstance(x, ast.Call) and call_name(x) == 'set_output' and is_const(x.args[0], 0)
+            for x in own_nodes(ir.node))
+        ck.ob(R3, f"{OA} :: set_output sites", ok, f"set_output is called from {sites}; init sets 0"
+              if ok else f"unexpected set_output sites {sites} (or init does not set 0)", ir, ir.node)
+
+    with ck.section('R12.4'):
+        # ------------------------------------------------------------------ R12.4
+        g = ck.cfg(oc.fid, 'M1')
+        guard = nodes_where(g, lambda n: any(isinstance(a, ast.Await) and isinstance(a.value, ast.Call) and
+                                             call_name(a.value) == 'shield_cancel' for a in walk_shallow(n.ast)))
+        ok = len(guard) == 1
+        if ok:
+            inner = [a for a in walk_shallow(guard[0].ast) if isinstance(a, ast.Call) and
+                     call_name(a) == 'shield_cancel'][0].args[0]
+            ok = isinstance(inner, ast.Call) and norm(inner.func) == 'asyncio.sleep' and \
+                [norm(a) for a in inner.args] == ['self._guard_time']
+        ck.ob(R4, f"{oc.fid} :: guard sleep shielded", ok,
+              "await utils.shield_cancel(asyncio.sleep(self._guard_time))" if ok else
+              "the guard sleep is not protected by shield_cancel: a cancellation shortens the guard "
+              "time", oc, guard[0].ast if guard else oc.node)
+        if guard:
+            aw = nodes_where(g, lambda n: any(a is awaits[0] for a in walk_shallow(n.ast)))
+            skipb = [n for n in g.nodes if n.kind == 'branch' and not n.polarity and
+                     'self._guard_time' in norm(n.test.ast)]
+            wit = g.path_avoiding(aw[0], [g.exit], avoid=guard + skipb, start_successors_only=True) if aw else None
+            ck.ob(R4, f"{oc.fid} :: guard follows every arm", wit is None,
+                  "after success, error and cancellation alike the guard time is waited (if configured)"
+                  if wit is None else "an outcome arm leaves _output_coro without the guard sleep", oc,
+                  guard[0].ast, witness=path_witness(g, wit))
+            hs = [h for h in own_nodes(oc.node) if isinstance(h, ast.ExceptHandler) and
+                  any(a is x for s in [st for st in own_nodes(oc.node) if isinstance(st, ast.Try) and h in st.handlers]
+                      for b in s.body for x in walk_shallow(b)
+                      for a in [y for y in walk_shallow(guard[0].ast)] if isinstance(a, ast.Await))]
+            okh = all(handler_types(h) == ['CancelledError'] for h in hs) and bool(hs)
+            ck.ob(R4, f"{oc.fid} :: only the deferred cancellation absorbed", okh,
+                  "around the guard sleep only CancelledError is caught" if okh else
+                  "the handler around the guard sleep catches more than CancelledError", oc,
+                  hs[0] if hs else oc.node)
+        sc = prog.func('utils.shield_cancel:shield_cancel')
+        gs = ck.cfg(sc.fid, 'M1')
+        brk = [n for n in gs.nodes if n.kind == 'stmt' and isinstance(n.ast, ast.Break)]
+        aw = nodes_where(gs, lambda n: any(isinstance(a, ast.Await) and 'shield(' in norm(a.value)
+                                           for a in walk_shallow(n.ast)))
+        store = nodes_where(gs, lambda n: isinstance(n.ast, ast.Assign) and norm(n.ast.targets[0]) == 'cancel_exc'
+                            and not is_const(n.ast.value, None))
+        rer = nodes_where(gs, lambda n: isinstance(n.ast, ast.Raise) and n.ast.exc is not None and
+                          norm(n.ast.exc) == 'cancel_exc', kinds=('stmt',))
+        ok = len(aw) == 1 and bool(brk) and bool(store) and bool(rer) and \
+            all(gs.path_avoiding(gs.entry, [b], avoid=aw) is None for b in brk) and \
+            all(gs.has_guard(s_, 'task.done()', False) for s_ in store) and \
+            all(gs.has_guard(r, 'cancel_exc is not None', True) for r in rer) and \
+            all(any(gs.dominates(b, r) for b in brk) for r in rer)
+        ck.ob(R4, sc.fid, ok, "the loop is left only when the shielded await returned; a cancellation "
+              "received meanwhile is stored and re-raised afterwards" if ok else
+              "shield_cancel can end before the inner task is done, or loses the deferred cancellation",
+              sc, sc.node)
+        ini = m['__init__']
+        gi = ck.cfg(ini.fid, 'M0')
+        rs = nodes_where(gi, lambda n: isinstance(n.ast, ast.Raise) and
+                         gi.has_guard(n, 'self._guard_time > self.stop_timeout', True), kinds=('stmt',))
+        ck.ob(R4, f"{ini.fid} :: guard_time <= stop_timeout", bool(rs),
+              "guard_time > stop_timeout is refused at construction" if rs else
+              "a guard_time longer than stop_timeout is accepted (stop could not complete in time)",
+              ini, ini.node)
+
+    with ck.section('R12.5'):
+        # ------------------------------------------------------------------ R12.5
+        cw = m['_ctrl_wait']
+        gw = ck.cfg(cw.fid, 'M0')
+        inline = [a for a in own_nodes(cw.node) if isinstance(a, ast.Await) and call_name(a.value) == '_output_coro_wrapper']
+        tasks = [c for c in own_nodes(cw.node) if isinstance(c, ast.Call) and call_name(c) in ('create_task', 'ensure_future')]
+        ck.ob(R5, f"{cw.fid} :: one at a time", len(inline) == 1 and not tasks,
+              "each run is awaited inline: the next item is dequeued only after the previous run "
+              "(incl. guard time) finished" if len(inline) == 1 and not tasks else
+              "wait mode starts runs concurrently", cw, cw.node)
+        st = m['start']
+        qw = [x for x in own_nodes(st.node) if isinstance(x, ast.Assign) and norm(x.targets[0]) == 'self._queue']
+        ok = len(qw) == 1 and norm(qw[0].value) == 'asyncio.Queue()'
+        ck.ob(R5, f"{st.fid} :: FIFO queue", ok, "self._queue = asyncio.Queue() (arrival order)" if ok
+              else f"the queue is `{norm(qw[0].value) if qw else None}`, not a FIFO asyncio.Queue()",
+              st, qw[0] if qw else st.node)
+        own(ck, R5, '_queue', {st.fid: 'created at start',
+                               'blocklib.sblocks1:Repeat.start': "Repeat's own queue",
+                               'blocklib.cron:Cron.start': "Cron's own queue"})
+        cs = m['_ctrl_start']
+        gst = ck.cfg(cs.fid, 'M0')
+        get = nodes_where(gst, lambda n: any(call_name(c) == 'get' for c in node_calls(n)))
+        mk = nodes_where(gst, lambda n: any(call_name(c) in ('create_task', 'ensure_future') for c in node_calls(n)))
+        ok = len(get) == 1 and len(mk) == 1
+        if ok:
+            between = [n for n in gst.nodes if n.id in gst.reachable_from(get[0], avoid=[mk[0]])
+                       and mk[0].id in gst.reachable_from(n) and n is not get[0] and n.ast is not None
+                       and n.kind in ('stmt', 'test') and
+                       any(isinstance(a, ast.Await) for a in walk_shallow(n.ast))]
+            ok = not between
+        ck.ob(R5, f"{cs.fid} :: every event starts at once", ok,
+              "a task is created for each item with no await between dequeue and creation" if ok else
+              "start mode waits between dequeue and task creation (runs would not start at once)",
+              cs, mk[0].ast if mk else cs.node)
+        cc = m['_ctrl_cancel']
+        gc = ck.cfg(cc.fid, 'M0')
+        cancels = nodes_calling(gc, 'cancel')
+        ok = len(cancels) == 1 and gc.has_guard(cancels[0], 'stop', False)
+        deq = nodes_where(gc, lambda n: any(isinstance(a, ast.Await) and call_name(a.value) == 'get'
                                             for a in walk_shallow(n.ast)))
-    conts = set()
-    for n in mks:
-        for c in node_calls(n, 'add'):
-            if recv(c):
-                conts.add(recv(c))
-        if isinstance(n.ast, ast.Assign):
-            conts.add(norm(n.ast.targets[0]))
-    gargs = {norm(a.value) if isinstance(a, ast.Starred) else norm(a)
-             for n in gnodes for a_ in walk_shallow(n.ast) if isinstance(a_, ast.Await)
-             for a in a_.value.args}
-    from sa.cfg import decompose, canon_fact
-    empties = set()
-    for c_ in conts:
-        for t_ in (c_, f'len({c_}) > 0', f'len({c_})', f'len({c_}) != 0', f'len({c_}) >= 1'):
-            empties.add(canon_fact(ast.parse(t_, mode='eval').body, False))
-        empties.add(canon_fact(ast.parse(f'len({c_}) == 0', mode='eval').body, True))
-    empty_br = [n for n in gst.nodes if n.kind == 'branch' and
-                any(canon_fact(e, p_) in empties for e, p_ in decompose(n.test.ast, n.polarity))]
-    wit = None
-    for n in mks:
-        wit = wit or gst.path_avoiding(n, [gst.exit], avoid=gnodes + empty_br, start_successors_only=True)
-    okg = bool(mks) and bool(gnodes) and wit is None and bool(conts & gargs)
-    ck.ob(R5, f"{cs.fid} :: every started run is awaited before the control task ends", okg,
-          f"every path from create_task to the exit awaits gather(*{sorted(conts & gargs)}) (skipped "
-          f"only when that container is empty)" if okg else
-          "the control task of start mode can end while a run it has just created is still "
-          "pending (it is not awaited: stop_data would not be processed last / the run is "
-          "abandoned)", cs, mks[0].ast if mks else cs.node, witness=path_witness(gst, wit))
+        # the cancel is reached only after a dequeue in the same iteration
+        heads = [n for n in gc.nodes if n.kind == 'test' and isinstance(n.stmt, ast.While)
+                 and gc.dominates(n, cancels[0])] if cancels else []
+        head = min(heads, key=lambda n: n.id) if heads else None
+        ok = ok and head is not None and path_pruned(gc, head, cancels, avoid=deq) is None
+        ck.ob(R5, f"{cc.fid} :: cancel only for newer data", ok,
+              "task.cancel() is reached only after a successful dequeue of the same iteration and "
+              "never when stopping (the last run completes)" if ok else
+              "a run can be cancelled without a newer event (e.g. at stop)", cc,
+              cancels[0].ast if cancels else cc.node)
+        mk = nodes_where(gc, lambda n: any(call_name(c) in ('create_task', 'ensure_future') for c in node_calls(n)))
+        aw = nodes_where(gc, lambda n: any(isinstance(a, ast.Await) and norm(a.value) == 'task'
+                                           for a in walk_shallow(n.ast)))
+        okone = len(mk) == 1 and len(aw) >= 1
+        if okone:
+            live = [n for n in gc.nodes if n.kind == 'branch' and not n.polarity and
+                    'task.done()' in norm(n.test.ast)]
+            p = gc.path_avoiding(mk[0], [mk[0]], avoid=aw + live, start_successors_only=True)
+            okone = p is None
+        ck.ob(R5, f"{cc.fid} :: at most one active", okone,
+              "the previous run is awaited (unless done) before the next task is created" if okone
+              else "a new run can be created while the previous one is still active", cc,
+              mk[0].ast if mk else cc.node)
+        # the newest item runs: the created task gets the last binding of data
+        if mk:
+            c = [c for c in node_calls(mk[0]) if call_name(c) == '_output_coro_wrapper']
+            ok = bool(c) and [norm(a) for a in c[0].args] == ['data']
+            tr = nodes_where(gc, lambda n: isinstance(n.ast, ast.Assign) and norm(n.ast.targets[0]) == 'data'
+                             and norm(n.ast.value) == 'new_data')
+            ok = ok and bool(tr)
+            ck.ob(R5, f"{cc.fid} :: most recent event runs", ok,
+                  "older queued items are reported as cancelled, the newest becomes `data` and is run"
+                  if ok else "the run is not started with the most recent event", cc, mk[0].ast)
+        gth = [a for a in own_nodes(cs.node) if isinstance(a, ast.Await) and call_name(a.value) == 'gather']
+        ck.ob(R5, f"{cs.fid} :: gathered", len(gth) == 1, "all started tasks are gathered after the "
+              "sentinel" if len(gth) == 1 else "start mode does not wait for its tasks", cs, cs.node)
+        # every path from a task creation to the exit passes the gather; the only accepted way round
+        # it is the false outcome of a truth test of the very container the tasks were added to
+        mks = nodes_where(gst, lambda n: any(call_name(c) in ('create_task', 'ensure_future') for c in node_calls(n)))
+        gnodes = nodes_where(gst, lambda n: any(isinstance(a, ast.Await) and call_name(a.value) == 'gather'
+                                                for a in walk_shallow(n.ast)))
+        conts = set()
+        for n in mks:
+            for c in node_calls(n, 'add'):
+                if recv(c):
+                    conts.add(recv(c))
+            if isinstance(n.ast, ast.Assign):
+                conts.add(norm(n.ast.targets[0]))
+        gargs = {norm(a.value) if isinstance(a, ast.Starred) else norm(a)
+                 for n in gnodes for a_ in walk_shallow(n.ast) if isinstance(a_, ast.Await)
+                 for a in a_.value.args}
+        from sa.cfg import decompose, canon_fact
+        empties = set()
+        for c_ in conts:
+            for t_ in (c_, f'len({c_}) > 0', f'len({c_})', f'len({c_}) != 0', f'len({c_}) >= 1'):
+                empties.add(canon_fact(ast.parse(t_, mode='eval').body, False))
+            empties.add(canon_fact(ast.parse(f'len({c_}) == 0', mode='eval').body, True))
+        empty_br = [n for n in gst.nodes if n.kind == 'branch' and
+                    any(canon_fact(e, p_) in empties for e, p_ in decompose(n.test.ast, n.polarity))]
+        wit = None
+        for n in mks:
+            wit = wit or gst.path_avoiding(n, [gst.exit], avoid=gnodes + empty_br, start_successors_only=True)
+        okg = bool(mks) and bool(gnodes) and wit is None and bool(conts & gargs)
+        ck.ob(R5, f"{cs.fid} :: every started run is awaited before the control task ends", okg,
+              f"every path from create_task to the exit awaits gather(*{sorted(conts & gargs)}) (skipped "
+              f"only when that container is empty)" if okg else
+              "the control task of start mode can end while a run it has just created is still "
+              "pending (it is not awaited: stop_data would not be processed last / the run is "
+              "abandoned)", cs, mks[0].ast if mks else cs.node, witness=path_witness(gst, wit))
 
-    # the drain of cancel mode runs until the queue IS empty (or the sentinel was met): an item put
-    # back synchronously by an on_cancel recipient during the drain is picked up as well; a size
-    # snapshot (`for _ in range(queue.qsize())`) leaves it behind, and the next loop turn cancels
-    # a task that has not started yet
-    from sa.cfg import canon_fact as _cf, decompose as _dc
-    qal_ = {'self._queue'} | {norm(n.ast.targets[0]) for n in gc.nodes if n.kind == 'stmt' and
-                               isinstance(n.ast, ast.Assign) and norm(n.ast.value) == 'self._queue'}
-    wants_ = set()
-    for q_ in qal_:
-        wants_.add(_cf(ast.parse(f'{q_}.empty()', mode='eval').body, True))
-        wants_.add(_cf(ast.parse(f'{q_}.qsize() == 0', mode='eval').body, True))
-        wants_.add(_cf(ast.parse(f'{q_}.qsize() > 0', mode='eval').body, False))
-        wants_.add(_cf(ast.parse(f'{q_}.qsize()', mode='eval').body, False))
-    emptyq = [n for n in gc.nodes if n.kind == 'branch' and any(
-        _cf(e_, p_) in wants_ for e_, p_ in _dc(n.test.ast, n.polarity))]
-    sentinel_ = [n for n in gc.nodes if n.kind == 'branch' and n.polarity and
-                 norm(n.test.ast).endswith(' is None') and 'task' not in norm(n.test.ast)]
-    witd = None
-    if mk and deq:
-        for d_ in deq:
-            witd = witd or gc.path_avoiding(d_, mk, avoid=emptyq + sentinel_, start_successors_only=True)
-    ck.ob(R5, f"{cc.fid} :: drained until empty before the run starts", bool(mk) and bool(emptyq) and witd is None,
-          "between the dequeue and the task creation the queue was seen empty (or the stop "
-          "sentinel was met) on every path" if mk and emptyq and witd is None else
-          "a run can be started while items are still queued (the drain is bounded by a size "
-          "snapshot or skipped): an event put back during the drain is left behind, the next turn "
-          "cancels the not yet started task and the control task dies on the CancelledError", cc,
-          mk[0].ast if mk else cc.node, witness=path_witness(gc, witd))
-    from rules.shared import stop_data_condition
-    stop_data_condition(ck, R6)
+        # the drain of cancel mode runs until the queue IS empty (or the sentinel was met): an item put
+        # back synchronously by an on_cancel recipient during the drain is picked up as well; a size
+        # snapshot (`for _ in range(queue.qsize())`) leaves it behind, and the next loop turn cancels
+        # a task that has not started yet
+        from sa.cfg import canon_fact as _cf, decompose as _dc
+        qal_ = {'self._queue'} | {norm(n.ast.targets[0]) for n in gc.nodes if n.kind == 'stmt' and
+                                   isinstance(n.ast, ast.Assign) and norm(n.ast.value) == 'self._queue'}
+        wants_ = set()
+        for q_ in qal_:
+            wants_.add(_cf(ast.parse(f'{q_}.empty()', mode='eval').body, True))
+            wants_.add(_cf(ast.parse(f'{q_}.qsize() == 0', mode='eval').body, True))
+            wants_.add(_cf(ast.parse(f'{q_}.qsize() > 0', mode='eval').body, False))
+            wants_.add(_cf(ast.parse(f'{q_}.qsize()', mode='eval').body, False))
+        emptyq = [n for n in gc.nodes if n.kind == 'branch' and any(
+            _cf(e_, p_) in wants_ for e_, p_ in _dc(n.test.ast, n.polarity))]
+        sentinel_ = [n for n in gc.nodes if n.kind == 'branch' and n.polarity and
+                     norm(n.test.ast).endswith(' is None') and 'task' not in norm(n.test.ast)]
+        witd = None
+        if mk and deq:
+            for d_ in deq:
+                witd = witd or gc.path_avoiding(d_, mk, avoid=emptyq + sentinel_, start_successors_only=True)
+        ck.ob(R5, f"{cc.fid} :: drained until empty before the run starts", bool(mk) and bool(emptyq) and witd is None,
+              "between the dequeue and the task creation the queue was seen empty (or the stop "
+              "sentinel was met) on every path" if mk and emptyq and witd is None else
+              "a run can be started while items are still queued (the drain is bounded by a size "
+              "snapshot or skipped): an event put back during the drain is left behind, the next turn "
+              "cancels the not yet started task and the control task dies on the CancelledError", cc,
+              mk[0].ast if mk else cc.node, witness=path_witness(gc, witd))
+        from rules.shared import stop_data_condition
+        stop_data_condition(ck, R6)
 
-    # ------------------------------------------------------------------ R12.6
-    gi = ck.cfg(ini.fid, 'M0')
-    mp = {}
-    for n in nodes_writing_attr(gi, '_ctrl_coro'):
-        v = norm(written_value(n, '_ctrl_coro'))
-        for e, p in gi.guards(n):
-            if isinstance(e, ast.Compare) and isinstance(e.ops[0], ast.In) and p and norm(e.left) == 'mode':
-                try:
-                    mp[v] = set(ast.literal_eval(e.comparators[0]))
-                except ValueError:
-                    pass
-    want = {'self._ctrl_cancel': {'c', 'cancel'}, 'self._ctrl_wait': {'w', 'wait'},
-            'self._ctrl_start': {'s', 'start'}}
-    ck.ob(R6, f"{ini.fid} :: mode table", mp == want,
-          "c/cancel, w/wait, s/start select their control coroutines" if mp == want else
-          f"mode table is {mp}", ini, ini.node)
-    other = nodes_where(gi, lambda n: isinstance(n.ast, ast.Raise) and n.kinds == {'N:ValueError'} and
-                        all(gi.has_guard(n, f"mode in {t_}", False) for t_ in
-                            ('{"c", "cancel"}', '{"w", "wait"}', '{"s", "start"}')), kinds=('stmt',))
-    ck.ob(R6, f"{ini.fid} :: unknown mode", bool(other),
-          "any other mode raises ValueError" if other else "an unknown mode is accepted", ini, ini.node)
+    with ck.section('R12.6'):
+        # ------------------------------------------------------------------ R12.6
+        gi = ck.cfg(ini.fid, 'M0')
+        mp = {}
+        for n in nodes_writing_attr(gi, '_ctrl_coro'):
+            v = norm(written_value(n, '_ctrl_coro'))
+            for e, p in gi.guards(n):
+                if isinstance(e, ast.Compare) and isinstance(e.ops[0], ast.In) and p and norm(e.left) == 'mode':
+                    try:
+                        mp[v] = set(ast.literal_eval(e.comparators[0]))
+                    except ValueError:
+                        pass
+        want = {'self._ctrl_cancel': {'c', 'cancel'}, 'self._ctrl_wait': {'w', 'wait'},
+                'self._ctrl_start': {'s', 'start'}}
+        ck.ob(R6, f"{ini.fid} :: mode table", mp == want,
+              "c/cancel, w/wait, s/start select their control coroutines" if mp == want else
+              f"mode table is {mp}", ini, ini.node)
+        other = nodes_where(gi, lambda n: isinstance(n.ast, ast.Raise) and n.kinds == {'N:ValueError'} and
+                            all(gi.has_guard(n, f"mode in {t_}", False) for t_ in
+                                ('{"c", "cancel"}', '{"w", "wait"}', '{"s", "start"}')), kinds=('stmt',))
+        ck.ob(R6, f"{ini.fid} :: unknown mode", bool(other),
+              "any other mode raises ValueError" if other else "an unknown mode is accepted", ini, ini.node)
